@@ -127,7 +127,7 @@ def check(prop, tier, seed, scratch, plan, replay, K):
         if k:
             if k[0][2] not in printed:
                 printed.add(k[0][2])
-                print("KNOWN-FINDING: property=%s %s" % (prop, k[0][2][len("known:"):].strip()))
+                print("KNOWN-FINDING: property=%s %s" % (prop, re.sub(r"^property=\S+\s*", "", k[0][2][len("known:"):].strip())))
             continue
         new_viol.append(x)
     os.makedirs(os.path.join(K.VERIF, "replays"), exist_ok=True)
